@@ -45,7 +45,7 @@ func c09Setup(k int, faults bool) *c09Env {
 		}
 		env.arr = append(env.arr, a)
 	}
-	env.u = &ut0311{bindAddr: netip.AddrPort{}, timeout: c09Timeout}
+	env.u = &ut0311{bindAddr: netip.AddrPort{}, timeout: c09Timeout, debug: nondetBool("driver.debug")}
 	return env
 }
 
